@@ -313,6 +313,25 @@ fn judge_build(sc: &Scenario, build: Build, st: &mut Option<&mut Stats>) -> Opti
         .iter()
         .flat_map(|(_, l)| l.sent.as_ref().unwrap().piece.iter().copied())
         .collect();
+    // Premise, decided by the real code: the *rendering* of every heal fragment (tag block,
+    // delimiter, number padding, checksum digits, trailing bytes ...) is one this code accepts at
+    // all - asked of a fresh parser with the header of an unfragmented sentence in place of the
+    // fragment's own. Which renderings are well-formed is the sentence grammar's business (C08),
+    // not the reassembler's; sequence ids, counts and numbers stay in C05's own hands.
+    for (_, l) in &heal {
+        let accepted = match reheaded_unfragmented(&l.bytes) {
+            Some(probe) => matches!(new_node(build).parse(&probe, false, false), Outcome::Complete(ref s, _) if s.n == 1),
+            None => false,
+        };
+        if !accepted {
+            if let Some(st) = st.as_deref_mut() {
+                st.premise_failed += 1;
+                st.probe("heal fragment's rendering is not accepted even as an unfragmented sentence (grammar: not judged)");
+            }
+            ABANDONED.with(|a| a.set(true));
+            return None;
+        }
+    }
     let first_heal = heal[0].0;
     let last_heal = heal[heal.len() - 1].0;
     let mut result: Option<Violation> = None;
